@@ -434,3 +434,24 @@ def check_hand_files(files):
     with open(cpath, "w") as fh:
         json.dump({"key": key, "out": {f: r.out for f, r in zip(files, res)}}, fh)
     return res
+
+
+def plain_function_table_policy():
+    """T1 for map_expr_dags: how is the typecode-sized table for plain functions obtained?  Recognised
+    shape: built afresh on every call from the live counter (`[...] * Expr._ufl_num_typecodes_`), which
+    is a (validate_len, live_registry) = (True, True) policy.  Anything else -> None (probes decide)."""
+    import textwrap
+    from ufl.corealg import map_dag
+    try:
+        fn = ast.parse(textwrap.dedent(inspect.getsource(map_dag.map_expr_dags))).body[0]
+    except Exception:
+        return None, "cannot parse map_expr_dags"
+    for n in ast.walk(fn):
+        if isinstance(n, ast.If) and "isinstance(function, MultiFunction)" in ast.unparse(n.test):
+            body = [ast.unparse(x) for x in n.orelse]
+            want = ["cutoff_types = [False] * Expr._ufl_num_typecodes_",
+                    "handlers = [function] * Expr._ufl_num_typecodes_"]
+            if body == want:
+                return (True, True), "tables rebuilt per call from Expr._ufl_num_typecodes_"
+            return None, "else-branch: " + " ; ".join(body)[:300]
+    return None, "no `if isinstance(function, MultiFunction)` found"
